@@ -88,6 +88,15 @@ class Havoc:
         return f'<havoc {self.name}>'
 
 
+class _UnknownTarget:
+    """the receiver of a write inside a loop that was not followed"""
+    def __repr__(self):
+        return '<an object the function did not create>'
+
+
+_UNKNOWN_TARGET = _UnknownTarget()
+
+
 class ShapeOutOfDate(Exception):
     """the contract (not the code) needs an update: a checker error, never a verdict"""
 
@@ -782,6 +791,91 @@ class Interp:
             # subject of a cut-point contract)
         for nm in names:
             env.vars[nm] = Havoc(nm)
+        # the heap effect of the loop is not followed either: every write in it must go to a list / dict / set that this very
+        # function created (syntactic ownership: all bindings of the receiver name are literals, comprehensions or copies);
+        # anything else is recorded as a write to a pre-existing object (a frame event, see the cut-point obligation)
+        for line, what in self.loop_heap_writes(st):
+            self.writes.append((line, self.cur_func, what, False, _UNKNOWN_TARGET))
+
+    MUTATORS = ('append', 'insert', 'extend', 'pop', 'update', 'add', 'clear', 'remove', 'sort', 'reverse', 'discard', 'setdefault',
+                'popitem', 'put', 'get_nowait', 'appendleft', 'popleft', '__setitem__', '__delitem__', '__setattr__')
+
+    def _owned_names(self, func_node, upto):
+        """names of `func_node` that are, up to source line `upto` (the end of a loop at the top level of the function: a binding
+        after it cannot reach into it), only ever bound to containers created by the function itself"""
+        binds = {}
+        params = {a.arg for a in func_node.args.args + func_node.args.kwonlyargs + func_node.args.posonlyargs}
+        if func_node.args.vararg:
+            params.add(func_node.args.vararg.arg)
+        if func_node.args.kwarg:
+            params.add(func_node.args.kwarg.arg)
+        foreign = set(params)
+        for n in ast.walk(func_node):
+            if getattr(n, 'lineno', 0) > upto:
+                continue
+            if isinstance(n, ast.Assign):
+                for t in n.targets:
+                    if isinstance(t, ast.Name):
+                        binds.setdefault(t.id, []).append(n.value)
+                    else:
+                        for m in ast.walk(t):
+                            if isinstance(m, ast.Name) and isinstance(m.ctx, ast.Store):
+                                foreign.add(m.id)      # tuple unpacking: unknown origin
+            elif isinstance(n, ast.AnnAssign) and isinstance(n.target, ast.Name) and n.value is not None:
+                binds.setdefault(n.target.id, []).append(n.value)
+            elif isinstance(n, (ast.For, ast.comprehension)):
+                for m in ast.walk(n.target):
+                    if isinstance(m, ast.Name):
+                        foreign.add(m.id)
+            elif isinstance(n, (ast.With,)):
+                for it in n.items:
+                    if it.optional_vars is not None:
+                        for m in ast.walk(it.optional_vars):
+                            if isinstance(m, ast.Name):
+                                foreign.add(m.id)
+            elif isinstance(n, ast.NamedExpr) and isinstance(n.target, ast.Name):
+                foreign.add(n.target.id)
+            elif isinstance(n, ast.ExceptHandler) and n.name:
+                foreign.add(n.name)
+        owned = {nm for nm in binds if nm not in foreign}
+        changed = True
+        while changed:
+            changed = False
+            for nm in list(owned):
+                for v in binds[nm]:
+                    ok = (isinstance(v, (ast.List, ast.Dict, ast.Set, ast.ListComp, ast.DictComp, ast.SetComp, ast.Constant, ast.JoinedStr))
+                          or (isinstance(v, ast.Call) and isinstance(v.func, ast.Name) and v.func.id in ('list', 'dict', 'set', 'sorted', 'copy', 'deepcopy')
+                              and not (v.func.id in ('copy', 'deepcopy') and False))
+                          or (isinstance(v, ast.Name) and v.id in owned))
+                    if not ok:
+                        owned.discard(nm)
+                        changed = True
+                        break
+        return owned
+
+    def loop_heap_writes(self, st):
+        """[(line, description)] of the statements of loop `st` that may write to an object the enclosing function did not create"""
+        try:
+            func = self.index.function(self.cur_func).node
+        except Exception:
+            func = None
+        owned = self._owned_names(func, getattr(st, 'end_lineno', 10 ** 9)) if func is not None else set()
+        out = []
+
+        def root(e):
+            while isinstance(e, (ast.Attribute, ast.Subscript)):
+                e = e.value
+            return e
+        for n in ast.walk(st):
+            if isinstance(n, (ast.Attribute, ast.Subscript)) and isinstance(n.ctx, (ast.Store, ast.Del)):
+                r = n.value
+                if not (isinstance(r, ast.Name) and r.id in owned):
+                    out.append((getattr(n, 'lineno', None), f' {ast.unparse(n)} = ... (in a loop)'))
+            elif isinstance(n, ast.Call) and isinstance(n.func, ast.Attribute) and n.func.attr in self.MUTATORS:
+                r = n.func.value
+                if not (isinstance(r, ast.Name) and r.id in owned):
+                    out.append((getattr(n, 'lineno', None), f' {ast.unparse(n.func)}() (in a loop)'))
+        return out
 
     def st_For(self, st, env):
         if self._is_cut(st):
@@ -790,7 +884,7 @@ class Interp:
             saved = dict(env.vars)
             try:
                 return self._st_For(st, env)
-            except Unsupported:
+            except (Unsupported, ShapeOutOfDate):      # (a loop that reads what the shape of the cut-point contract does not describe)
                 env.vars.clear()
                 env.vars.update(saved)
                 return self.havoc_loop(st, env)
@@ -900,7 +994,7 @@ class Interp:
             saved = dict(env.vars)
             try:
                 return self._st_While(st, env)
-            except Unsupported:
+            except (Unsupported, ShapeOutOfDate):      # (a loop that reads what the shape of the cut-point contract does not describe)
                 env.vars.clear()
                 env.vars.update(saved)
                 return self.havoc_loop(st, env)
